@@ -627,9 +627,9 @@ def m2_update_args(schema: Schema, rep: Report):
     seq_ok = len(call.args) >= 2 and same(Expander(outer).x(call.args[1]), params_of(outer)[1], f"{cls}.groom({params_of(outer)[1]})")
     rep.check("M2", "_convert:folds-own-children", seq_ok, f"reduce iterates {ast.unparse(call.args[1])}, not the (groomed) element's children" if not seq_ok else "", f"{rel}:{call.lineno}")
     # list membership
-    appends = [n for n in own_nodes(inner) if isinstance(n, ast.Call) and isinstance(n.func, ast.Attribute) and n.func.attr == "append"]
+    appends = [n for n in own_nodes(inner) if isinstance(n, ast.Call) and isinstance(n.func, ast.Attribute) and n.func.attr in ("append", "insert", "extend", "appendleft")]
     if not appends:
-        raise AnalysisError("M2: reducer appends no list member")
+        raise AnalysisError("M2: reducer collects no list member")
     for a in appends:
         iff = parent(parent(a))
         while iff is not None and not isinstance(iff, ast.If):
